@@ -216,6 +216,8 @@ Definition wal_append_batch (w : wal) (ops : list wentry) : wal * wres :=
   | [] => (w, WOk (wl_next w))
   | _ =>
     if MaxSeq <=? wl_next w then (w, WErrOverflow) else
+    (* every op type is checked before the first record is written *)
+    if negb (forallb (fun e => valid_op (w_op e)) ops) then (w, WErrInvalidOp) else
     let s := wl_next w in
     (mkWal (s + 1) (app_last (wl_files w) (encode_batch s ops)), WOk s)
   end.
